@@ -342,6 +342,12 @@ func (x *execState) forLoop(s *tw.Stmt, sc *Scope) signal {
 		if !ok {
 			return sigNone
 		}
+		if s.PostName != "" && s.PostName != s.Name {
+			// an assignment to another name as the post clause binds it in the loop's
+			// block: what later passes see of it is a matter of pass scoping
+			x.fail(Unspec, "post clause assigns a name other than the loop variable")
+			return sigNone
+		}
 		if r := ls.set(s.Name, pv); r.St != OK {
 			x.fail(r.St, r.Why)
 			return sigNone
